@@ -287,11 +287,13 @@ def array_shapes(env, fn, mode):
 NT = F.sym("@nt")
 
 
-def run_arm(ctx, kind, cfg, which, carry=None, generic=(), generic_prefix=None, sided=False, two_steps=False, jw=None):
+def run_arm(ctx, kind, cfg, which, carry=None, generic=(), generic_prefix=None, sided=False, two_steps=False, jw=None, side=None):
     """evaluate generator `kind` for the configuration and the kind of send; memoised per run.  jw: a world for the sent index of a positive
-    send - 1: the first step is sent (j = 1), 2: a later one (j >= 2) - for tests the documented domain j >= 1 alone does not decide"""
+    send - 1: the first step is sent (j = 1), 2: a later one (j >= 2) - for tests the documented domain j >= 1 alone does not decide.
+    side: '+' / '-' - the histories in which the generic step index an earlier send left behind lies far after / far before the sent step
+    (for order comparisons of step indices, which "differs from whatever it is compared with" does not decide)"""
     key = (kind, tuple(sorted((k, str(v)) for k, v in cfg.items())), which, tuple(sorted((k, repr(v)) for k, v in (carry or {}).items())),
-           tuple(sorted(generic)), generic_prefix, sided, two_steps, jw)
+           tuple(sorted(generic)), generic_prefix, sided, two_steps, jw, side)
     cache = ctx.__dict__.setdefault("_c08_arms", {})
     if key in cache:
         r = cache[key]
@@ -308,6 +310,7 @@ def run_arm(ctx, kind, cfg, which, carry=None, generic=(), generic_prefix=None, 
         facts.no_assume = set(no_assume)
         facts.generic = set(generic_)
         facts.generic_prefix = prefix_
+        facts.generic_side = side
         # a message can only be sent when there are at least two time steps: columns of the time histories
         facts.ge2 = [NT]
         facts.ge2_exact = two_steps
@@ -484,8 +487,20 @@ def _generic_arms(ctx, kind, cfg):
         if "undecided test" not in str(e):
             raise
     # a test the domain j >= 1 does not decide (a tag that never changes compared with j - 1 ...): the first send and the later ones apart
-    later = [run_arm(ctx, kind, cfg, w, generic_prefix="carry:", jw=2) for w in ("pos", "addon")]
-    return later + [run_arm(ctx, kind, cfg, "pos", generic_prefix="carry:", jw=1)]
+    try:
+        later = [run_arm(ctx, kind, cfg, w, generic_prefix="carry:", jw=2) for w in ("pos", "addon")]
+        later = later + [run_arm(ctx, kind, cfg, "pos", generic_prefix="carry:", jw=1)]
+        if not any(_undecided(a_) for a_ in later):
+            return later
+    except Unsupported as e:
+        if "undecided test" not in str(e):
+            raise
+    # an order comparison of step indices (`i < i_last`): "whatever step was solved last" falls into the histories in which that step lies
+    # after the sent one and those in which it lies before it; both are evaluated (positive and add-on send in each)
+    out = []
+    for sd in ("-", "+"):
+        out += [run_arm(ctx, kind, cfg, w, generic_prefix="carry:", side=sd) for w in ("pos", "addon")]
+    return out
 
 
 def _find_state(ctx, kind, cfg):
@@ -640,6 +655,31 @@ def _worlds(tagname, cachename):
             ("any other step solved last", {cachename: STALE}, ("carry:" + tagname,))]
 
 
+# the send history that realises a world (the witness printed with a violation)
+_WITNESS = {
+    "step j solved last (redo)": "send(.., i, f) then send(i, f'): the force cached for step i enters as that of step i-1",
+    "step j+1 solved last (jump back)": "send(.., i, i+1) then send(i, f'): the force cached for step i+1 enters step i as that of step i-1",
+    "step j-2 solved last (skip ahead)": "send(.., i-1, i, i-2) then send(i, f'): the force cached for step i-2 enters step i as that of step i-1",
+    "a much later step solved last (far jump back)": "send(1..5) then send(3, f'): the force of step 5 enters step 3",
+    "a much earlier step solved last (far skip ahead)": "send(1..5), send(2, f') then send(5, f''): the force of step 2 enters step 5",
+}
+
+
+def _world_arms(ctx, cfg, wname, carry, generic):
+    """[(name of the world, positive-send arm)]: the world as given; when it leaves the cache tag generic ("any other step") and the body orders
+    step indices (`i < i_last`) - which "differs from whatever it is compared with" does not decide - the two kinds of history it consists of:
+    the tagged step lies far after / far before the sent one.  Every comparison is then one of integers tied to the sent index."""
+    try:
+        w = run_arm(ctx, "cdf", cfg, "pos", carry=carry, generic=generic)
+        if not generic or not _undecided(w):
+            return [(wname, w)]
+    except Unsupported as e:
+        if not generic or "undecided test" not in str(e):
+            raise
+    return [(nm, run_arm(ctx, "cdf", cfg, "pos", carry=carry, generic=generic, side=sd))
+            for nm, sd in (("a much later step solved last (far jump back)", "+"), ("a much earlier step solved last (far skip ahead)", "-"))]
+
+
 def _cached_damping_force(ctx, tag, cfg, tg, ch, arms):
     pos, addon = arms[0], arms[1]
     lp = pos.loop
@@ -652,18 +692,24 @@ def _cached_damping_force(ctx, tag, cfg, tg, ch, arms):
     _check(ctx, ok, f"{tag}: before the first send the cache holds bo @ V[:, s] for the step s it is tagged with", lp,
               None if ok else {"tag": repr(t0), "cache": repr(c0)})
     # meaning of the guard: whatever step was solved last, a value cached for a step other than j-1 never enters step j
-    for wname, carry, generic in _worlds(tg, ch):
+    for wname0, carry, generic in _worlds(tg, ch):
         try:
-            w = run_arm(ctx, "cdf", cfg, "pos", carry=carry, generic=generic)
+            was = _world_arms(ctx, cfg, wname0, carry, generic)
         except Unsupported as e:
-            ctx.error(f"{tag} [{wname}]: positive send", lp, str(e))
+            ctx.error(f"{tag} [{wname0}]: positive send", lp, str(e))
             continue
-        if wname.startswith("step j-1"):
+        if wname0.startswith("step j-1"):
             continue
-        used = [c["text"] for c in w.cells if depends(c["value"], "stale_cache")] + [k for k in (ch,) if depends(w.final(k), "stale_cache")]
-        _check(ctx, not used, f"{tag} [{wname}]: the force cached by an earlier send is not used (it belongs to another step); the step is computed from "
-                            "column j-1", lp, None if not used else {"depends on the stale cache": used,
-                                                                     "consequence": "after send(1..5) then send(3, f') the force of step 5 enters step 3"})
+        for wname, w in was:
+            und = _undecided(w)
+            if und:
+                ctx.error(f"{tag} [{wname}]: a value of the send depends on a test the history does not decide", lp, und[0].why)
+                continue
+            used = [c["text"] for c in w.cells if depends(c["value"], "stale_cache")] + [k for k in (ch,) if depends(w.final(k), "stale_cache")]
+            _check(ctx, not used, f"{tag} [{wname}]: the force cached by an earlier send is not used (it belongs to another step); the step is computed "
+                                "from column j-1", lp, None if not used else {
+                                    "depends on the stale cache": used,
+                                    "witness history": _WITNESS.get(wname, "send(1..5) then send(3, f'): the force of step 5 enters step 3")})
     # bookkeeping of the tag
     if not _good(pos.final(tg)) or not _good(addon.final(tg)):
         _not_lowered(ctx, f"{tag}: tag of the cache after a send not lowered", lp, {"positive": repr(pos.final(tg)), "add-on": repr(addon.final(tg))},
@@ -1033,6 +1079,13 @@ def r2_step_equals_batch(ctx):
         elif len(tags) == 1 and len(cache) == 1:
             worlds = _worlds(tags[0], cache[0])
             plan = [("cache valid", worlds[0]), ("recompute", worlds[-1])]
+            try:
+                # (an order comparison of step indices: "any other step" is the steps far after and the steps far before the sent one)
+                sub = _world_arms(ctx, cfg, worlds[-1][0], worlds[-1][1], worlds[-1][2])
+            except Unsupported:
+                sub = []
+            if len(sub) == 2:
+                plan = [plan[0]] + [(f"recompute: {nm.split(' (')[0]}", (nm, worlds[-1][1], worlds[-1][2], sd)) for (nm, _w), sd in zip(sub, "+-")]
         elif cache and not tags:
             _fail(ctx, f"{tag}: a force cached by an earlier send is used only when it is checked against the step it belongs to", arms[0].loop,
                      {"carried": {k: sorted(v) for k, v in roles.items()}})
@@ -1045,7 +1098,7 @@ def r2_step_equals_batch(ctx):
         # lemma (i): the cached force, when valid, equals bo @ V[:, i-1]; evaluate both arms of the guard
         for arm_name, world in plan:
             try:
-                w = arms[0] if world is None else run_arm(ctx, "cdf", cfg, "pos", carry=world[1], generic=world[2])
+                w = arms[0] if world is None else run_arm(ctx, "cdf", cfg, "pos", carry=world[1], generic=world[2], side=world[3] if len(world) > 3 else None)
             except Unsupported as e:
                 ctx.error(f"{tag} [{arm_name}]: positive send", arms[0].loop, str(e))
                 continue
@@ -1904,11 +1957,18 @@ def r6_typing(ctx):
         for cfg in configs:
             for which in ("pos", "addon"):
                 try:
-                    arm = run_arm(ctx, kind, cfg, which, generic_prefix="carry:") if which == "pos" else addon_arm(ctx, kind, cfg)
+                    if which == "addon":
+                        tarms = [addon_arm(ctx, kind, cfg)]
+                    elif kind == "cdf" and cfg.get("k", True):
+                        # (every world the carried-state rule had to tell apart for a positive send: each statement is typed on the paths that reach it)
+                        tarms = [a_ for a_ in _generic_arms(ctx, kind, cfg) if a_.canon.which == "pos"]
+                    else:
+                        tarms = [run_arm(ctx, kind, cfg, which, generic_prefix="carry:")]
                 except Unsupported as e:
                     ctx.error(f"{qual} [{label}] ({cfg_tag(cfg)}, {which}): not evaluated", fn, str(e))
                     continue
-                type_trace(arm.ev.trace, attrs, params, _equiv(cfg, mode), label, bad, checked)
+                for arm in tarms:
+                    type_trace(arm.ev.trace, attrs, params, _equiv(cfg, mode), label, bad, checked)
         _report_typing(ctx, qual, label, bad, checked)
     # the get_f2x family and the allocation of the arrays
     jobs = []
